@@ -143,6 +143,21 @@ def gateMatches : Option Doc → Method → Bool
           | none => false)
     && (!d.extra.contains .userOption || userGate m.steps)
 
+/-- EVERY state check of the method (an inlined public method repeats it) allows the documented set, and
+    BAD_SUPVISORS_STATE is only raised by conditions on the Supvisors state and modes -/
+def allGatesMatch (d : Doc) (steps : List Step) : Bool :=
+  steps.all (fun st => match st with
+    | .raise (.state al) _ => sameStates d.family.finalOpen d.family.allowed al
+    | .raise c f => f != .badSupvisorsState || c.isStateLike
+    | _ => true)
+
+def gatesMatch : Option Doc → Method → Bool
+  | none, _ => false
+  | some d, m => allGatesMatch d m.steps
+
+/-- the documented further conditions on the modes hold (Master not yet known, USER option, no job in progress) -/
+def modesPass (s : State) : Bool := !s.masterSet && s.userOpt && !s.jobs
+
 /-- fault code of a raise step against the statement: state check, name checks, strategy check, managed check -/
 def stepFaultOk : Step → Bool
   | .raise c f =>
